@@ -11,7 +11,7 @@ SEARCH_N = {'quick': 600, 'thorough': 4000}
 SHARD = 50
 CASE_TIMEOUT = 30.0
 RULE = ('bpch contents with 1-3 time blocks x 1-3 tracers in 1-3 categories, nx,ny 1-3, per-tracer layer counts 1-3 (rarely 48/49), nested-grid '
-        'offsets, tracerinfo.dat/diaginfo.dat generated as text (category offsets 0/100/1000/2000, entries present or missing); three directions: '
+        'offsets (I0,J0,L0 each independently 1 or >1: all 8 combinations), tracerinfo.dat/diaginfo.dat generated as text (category offsets 0/100/1000/2000, entries present or missing); three directions: '
         'rw = reference-encoded file -> bpch1 (noscale or scaled) -> ncf2bpch; wr = hand-built bpch-convention file -> ncf2bpch -> bpch1; '
         'b2 = bpch2 AND bpch1 on the same file (60% with complete tables, else any tables incl. missing categories / tracer numbers), both evaluated in Coq. Data: arbitrary finite binary32 patterns (noscale) or small dyadic values whose product with SCALE is exact (scaled). '
         'Malformed stream: byte truncations (random, block/time-block boundaries +-, one header further; S = every-prefix alternatives), trailing words, edits of record markers / tracer ids / categories / skip / dims / title markers. '
@@ -152,8 +152,11 @@ def gen_content(rng, tier, scaled, wr, full_tables=False):
         nz = rng.randint(1, 3)
         if big and not tracers:
             nz = rng.choice([48, 49, 49])
-        nested = rng.random() < 0.5
-        start = [rng.randint(1, 40), rng.randint(1, 30), rng.choice([1, 1, 2])] if nested else [1, 1, 1]
+        # window offsets (I0, J0, L0): each axis independently 1 or > 1, so that all 8 combinations occur per tracer
+        # (purely vertical, longitude-only, ... windows exercise the reader's `any(start != 0)` guard and the writer's rebuild)
+        start = [rng.randint(2, 40) if rng.random() < 0.5 else 1,
+                 rng.randint(2, 30) if rng.random() < 0.5 else 1,
+                 rng.randint(2, 5) if rng.random() < 0.5 else 1]
         tracers.append(dict(cat=c.ljust(40), tid=tid, unit=_pad(rng, rng.choice(UNITS), 40, wr), resv=''.ljust(40) if rng.random() < 0.7 else 'res'.ljust(40),
                             dim=[1 if nz > 3 else nx, 1 if nz > 3 else ny, nz], start=start))
     # tracerinfo: entries for most tracers (present / missing / only the un-offset number present)
